@@ -29,6 +29,17 @@ E1, E2, F1, F2 = params.BLS_E1, params.BLS_E2, params.BLS_FP, params.BLS_FP2
 SUITE_OF = {"G2Basic": "basic", "G2MessageAugmentation": "aug", "G2ProofOfPossession": "pop"}
 APIS = ["SkToPk", "KeyGen", "KeyValidate", "Sign", "Verify", "Aggregate", "AggregateVerify", "PopProve", "PopVerify", "FastAggregateVerify", "_AggregatePKs"]
 
+SUITE_PARAMS = {"basic": MB.SuiteParams("basic"), "aug": MB.SuiteParams("aug"), "pop": MB.SuiteParams("pop")}   # + custom suites
+
+
+def sp_of(suite):
+    return SUITE_PARAMS[suite]
+
+
+def kind_of(suite):
+    return SUITE_PARAMS[suite].kind
+
+
 KNOWN_SK = {}          # pk bytes -> sk  (learned / registered)
 _API_DEPTH = [0]
 _CACHE = {}
@@ -51,15 +62,15 @@ def cached(key, fn):
 
 
 def m_sign(suite, sk, msg):
-    return cached(("sign", suite, sk, msg), lambda: MB.sign(suite, sk, msg))
+    return cached(("sign", suite, sk, msg), lambda: MB.sign_p(sp_of(suite), sk, msg))
 
 
 def m_sign_point(suite, sk, msg):
-    return cached(("signpt", suite, sk, msg), lambda: MB.sign_point(suite, sk, msg))
+    return cached(("signpt", suite, sk, msg), lambda: MB.sign_point_p(sp_of(suite), sk, msg))
 
 
-def m_pop(sk):
-    return cached(("pop", sk), lambda: MB.pop_prove(sk))
+def m_pop(sk, suite="pop"):
+    return cached(("pop", suite, sk), lambda: MB.pop_prove_p(sp_of(suite), sk))
 
 
 def m_key_validate(pk):
@@ -135,7 +146,7 @@ def _h_sign(pop=False):
         if exc is not None:
             rec.check("M-bls.sign", False, "sign", "%s raised %r for a valid key" % (fn, exc), case=case, facts={"fn": fn, "kind": "raise", "suite": suite})
             return
-        exp = m_pop(sk) if pop else m_sign(suite, sk, msg)
+        exp = m_pop(sk, suite) if pop else m_sign(suite, sk, msg)
         register_key(sk)
         rec.check("M-bls.sign", isinstance(res, bytes) and res == exp, "sign", "%s output differs from the IETF draft v4 byte string" % fn, case=case,
                   facts={"fn": fn, "kind": "value", "suite": suite}, expected=exp, observed=res)
@@ -155,7 +166,7 @@ def h_keygen(suite, a, k, res, exc):
     if exc is not None:
         rec.check("M-bls.keygen", False, "keygen", "KeyGen raised %r" % (exc,), case=case, facts={"fn": "KeyGen", "kind": "raise"})
         return
-    exp = cached(("kg", ikm, info), lambda: MB.keygen(ikm, info))
+    exp = cached(("kg", suite, ikm, info), lambda: MB.keygen(ikm, info, 0, sp_of(suite).H))
     rec.check("M-bls.keygen", type(res) is int and 1 <= res < R and res == exp, "keygen", "KeyGen differs from draft v4 / out of range", case=case,
               facts={"fn": "KeyGen", "kind": "value"}, expected=exp, observed=res)
 
@@ -233,7 +244,7 @@ def expected_verify(suite, pk, msg, sig, pop=False):
     sk = KNOWN_SK.get(pk)
     if sk is None:
         return None, "unknown-sk"
-    canon = m_pop(sk) if pop else m_sign(suite, sk, msg)
+    canon = m_pop(sk, suite) if pop else m_sign(suite, sk, msg)
     return (sig == canon), ("canonical" if sig == canon else "non-canonical")
 
 
@@ -268,7 +279,7 @@ def expected_aggverify(suite, pks, msgs, sig):
         return False, "precondition-count"
     if any(len(p) != 48 or not m_key_validate(p) for p in pks):
         return False, "invalid-key"
-    if suite == "basic" and len(set(msgs)) != len(msgs):
+    if kind_of(suite) == "basic" and len(set(msgs)) != len(msgs):
         return False, "basic-duplicate-message"
     if len(sig) != 96:
         return False, "sig-length"
@@ -306,7 +317,7 @@ def h_aggverify(suite, a, k, res, exc):
               facts={"fn": "AggregateVerify", "kind": "false-accept" if res else "false-reject", "why": why, "suite": suite}, expected=exp, observed=res)
 
 
-def expected_fastaggverify(pks, msg, sig):
+def expected_fastaggverify(pks, msg, sig, suite="pop"):
     if len(pks) < 1:
         return False, "precondition-count"
     if any(len(p) != 48 or not m_key_validate(p) for p in pks):
@@ -322,7 +333,8 @@ def expected_fastaggverify(pks, msg, sig):
     tot = sum(sks) % R
     if tot == 0:
         return False, "aggregate-key-identity"
-    Hm = cached(("hp", msg, MB.DST["pop"]), lambda: MB.hash_point(msg, MB.DST["pop"]))
+    sp = sp_of(suite)
+    Hm = cached(("hp", suite, msg), lambda: MB.hash_point(msg, sp.dst, sp.H))
     expS = E2.mul(Hm, tot)
     return (expS == S), ("sum" if expS == S else "not-sum")
 
@@ -339,7 +351,7 @@ def h_fastaggverify(suite, a, k, res, exc):
     case = {"fn": "FastAggregateVerify", "suite": suite, "pks": pks, "msg": msg, "sig": sig, "sks": [KNOWN_SK.get(p) for p in pks]}
     if not _total(rec, "FastAggregateVerify", suite, res, exc, case):
         return
-    exp, why = expected_fastaggverify(pks, msg, sig)
+    exp, why = expected_fastaggverify(pks, msg, sig, suite)
     rec.path("FastAggregateVerify:%s" % why)
     _unsafe(rec, "FastAggregateVerify", suite, why, res, case)
     if exp is None:
@@ -391,8 +403,25 @@ PRE = {"FastAggregateVerify": pre_fastaggverify}
 
 
 # ------------------------------------------------------------------ installation
+def _original_bound(cls, name):
+    """The library's own method `name`, bound to `cls` - looking through wrappers that were installed on a base class
+    (a wrapper is a staticmethod closed over the method bound to THAT base class; a derived suite must run as itself)."""
+    import types
+    for k in cls.__mro__:
+        if name in vars(k):
+            v = vars(k)[name]
+            f = v.__func__ if isinstance(v, (staticmethod, classmethod)) else v
+            orig = getattr(f, "__pv_original__", None)
+            if orig is not None:
+                f0, is_cm = getattr(orig, "__func__", orig), hasattr(orig, "__self__")
+            else:
+                f0, is_cm = f, isinstance(v, classmethod)
+            return types.MethodType(f0, cls) if is_cm else f0
+    return None
+
+
 def _wrap_api(cls, name, suite):
-    bound = getattr(cls, name, None)
+    bound = _original_bound(cls, name)
     if bound is None:
         return False
     handler = HANDLERS.get(name)
@@ -442,6 +471,37 @@ def install(pair_arg=True):
     if pair_arg:
         watch("py_ecc.bls.ciphersuites", "pairing", "M-pair-arg", h_pairing)
     return cs
+
+
+def install_custom(cls, key, kind, H=None, dst=None, pop_tag=None):
+    """Put the same monitors around a ciphersuite class derived by a user (another hash function, other tags): the IETF
+    procedures are parametrised by exactly these, and the classes expose them as class attributes."""
+    import hashlib
+    SUITE_PARAMS[key] = MB.SuiteParams(kind, H or hashlib.sha256, dst, pop_tag)
+    for name in APIS:
+        if hasattr(cls, name):
+            _wrap_api(cls, name, key)
+    return cls
+
+
+def custom_suites(cs):
+    """Three user-derived suites: another XMD hash function, and (for the third) other tags as well."""
+    import hashlib
+    out = {}
+    defs = [("basic/sha512", "G2Basic", "basic", hashlib.sha512, None, None),
+            ("aug/sha3_256", "G2MessageAugmentation", "aug", hashlib.sha3_256, None, None),
+            ("pop/sha384+tags", "G2ProofOfPossession", "pop", hashlib.sha384, b"MYAPP_SIG_BLS12381G2_XMD:SHA-384_SSWU_RO_POP_", b"MYAPP_POP_BLS12381G2_XMD:SHA-384_SSWU_RO_POP_")]
+    for key, base, kind, H, dst, pop in defs:
+        b = getattr(cs, base, None)
+        if b is None:
+            continue
+        attrs = {"xmd_hash_function": H}
+        if dst:
+            attrs["DST"] = dst
+        if pop:
+            attrs["POP_TAG"] = pop
+        out[key] = install_custom(type("Custom" + base, (b,), attrs), key, kind, H, dst, pop)
+    return out
 
 
 def uninstall():
